@@ -1412,7 +1412,9 @@ class Node:
         conn.state = PEER_DISCONNECTING
 
         peer = self._find_connection_peer(conn)
-        if peer:
+        if peer and peer.connection in (conn, None):
+            # a DPR on a second connection of the peer says nothing about the
+            # registered one
             peer.disconnect_reason = DISCONNECT_REASON_DPR
 
         self.send_message(conn, answer)
